@@ -3,10 +3,13 @@ import MsqModel.Py
 # `CreateTableStatementGetter` (`analyzer/tool.py:34-76`) as a state machine, and its abstract specification
 
 The class keeps a memory dictionary (`_memory_cache`), the set of table names it believes to be on disk
-(`_disk_cache`, computed once, at construction, from the directory listing) and a directory with one file
-`<name>.sql` per table.  The model splits `get_statement` into the atomic steps the Python code performs
-(provider call, `_disk_cache.add`, `open(…, "w")` = create/truncate, `write`, `close`, parse, memory store) so
-that a process death can be placed between any two of them.
+(`_disk_cache`, computed once, at construction, from the `*.sql` entries of the directory listing) and a directory
+with one file `<name>.sql` per table.  The model splits `get_statement` into the atomic steps the Python code
+performs (provider call, `open(<name>.sql.tmp, "w")` = create/truncate, `write`, `close`, `os.replace` onto
+`<name>.sql`, `_disk_cache.add`, parse, memory store) so that a process death can be placed between any two of them.
+(State of /repo 4e42ffc: temporary file + rename, suffix-only name derivation, no newline translation; before these
+repairs the final file was truncated and written in place, `.sql` was deleted everywhere in the name and a carriage
+return came back as a line feed — findings F-C17-1/2/3/8, now regression theorems in `MsqProofs/Props/C17.lean`.)
 
 The model is generic in the schema provider `prov : Name → Text` (the abstract method `get_sql`) and in the
 parser `parse : Text → Except Err σ` (`SQLParser.parse_create_table_statement`); the provider call log is part
@@ -14,7 +17,7 @@ of the state (a ghost variable: it survives process deaths).
 
 File-system assumptions (named gap of DESIGN §8 C17): the cache directory holds regular files only, file names
 are case-sensitive byte strings without length limit, `os.listdir` returns every entry, a `close` that returns
-has put the whole text on disk.
+has put the whole text on disk, `os.replace` is atomic.
 -/
 namespace Cache
 
@@ -24,15 +27,15 @@ abbrev Text := List Char
 /-- `".sql"` -/
 def ext : List Char := ['.', 's', 'q', 'l']
 
-/-- `file_name.replace(".sql", "")` (`tool.py:43`): EVERY occurrence is removed, not just the suffix -/
-def derive (fileName : Name) : Name := Py.replace ext [] fileName
+/-- `".tmp"` -/
+def tmpExt : List Char := ['.', 't', 'm', 'p']
 
-/-- text-mode read with universal newlines (`open(…, "r")`, `tool.py:65`): `\r\n` and a lone `\r` come back as `\n` -/
-def newlines : Text → Text
-  | [] => []
-  | '\r' :: '\n' :: r => '\n' :: newlines r
-  | '\r' :: r => '\n' :: newlines r
-  | c :: r => c :: newlines r
+/-- `file_name[:-len(".sql")] … if file_name.endswith(".sql")` (`tool.py:43-44`): the table name of a directory entry,
+`none` for an entry that is not a `*.sql` file -/
+def stripSql (fileName : Name) : Option Name :=
+  match fileName.reverse with
+  | 'l' :: 'q' :: 's' :: '.' :: r => some r.reverse
+  | _ => none
 
 /-! ## the directory -/
 
@@ -46,6 +49,10 @@ def fset : Files → Name → Text → Files
   | [], f, t => [(f, t)]
   | (g, u) :: r, f, t => if g = f then (f, t) :: r else (g, u) :: fset r f t
 
+def fdel : Files → Name → Files
+  | [], _ => []
+  | (g, u) :: r, f => if g = f then fdel r f else (g, u) :: fdel r f
+
 def splitSlash : List Char → List (List Char)
   | [] => [[]]
   | c :: r =>
@@ -54,7 +61,7 @@ def splitSlash : List Char → List (List Char)
       | [] => [[c]]
       | h :: t => (c :: h) :: t
 
-/-- where `os.path.join(disk_path, name + ".sql")` leads -/
+/-- where `os.path.join(disk_path, <relative path>)` leads -/
 inductive Path where
   /-- a file directly in the cache directory -/
   | inDir (f : Name)
@@ -72,8 +79,7 @@ inductive Path where
 
 def dotdot : List Char := ['.', '.']
 
-def resolve (files : Files) (n : Name) : Path :=
-  let p := n ++ ext
+def resolveP (files : Files) (p : Name) : Path :=
   if p.contains '\x00' then .nul
   else if p.head? = some '/' then .outside
   else match (splitSlash p).filter (fun c => !(c == [] || c == ['.'])) with
@@ -85,6 +91,11 @@ def resolve (files : Files) (n : Name) : Path :=
          | [f] => .parent f
          | _ => .outside)
       else if (fget files c).isSome then .viaFile else .viaMissing
+
+/-- the cache file of a table: `<name>.sql` -/
+def resolve (files : Files) (n : Name) : Path := resolveP files (n ++ ext)
+/-- the temporary file it is written to: `<name>.sql.tmp` -/
+def resolveTmp (files : Files) (n : Name) : Path := resolveP files (n ++ ext ++ tmpExt)
 
 /-! ## outcomes -/
 
@@ -123,13 +134,13 @@ def mget {σ : Type} : List (Name × σ) → Name → Option σ
   | [], _ => none
   | (m, st) :: r, n => if m = n then some st else mget r n
 
-/-- `__init__` (`tool.py:37-45`) in a new process over the same directory: the memory is empty, the names are
-derived from the directory listing -/
+/-- `__init__` (`tool.py:37-46`) in a new process over the same directory: the memory is empty, the names are
+derived from the `*.sql` entries of the directory listing -/
 def init {σ : Type} (useDisk : Bool) (files parent : Files) (calls : List Name) : St σ :=
-  { useDisk, mem := [], listed := if useDisk then files.map (fun p => derive p.1) else [], files, parent, calls }
+  { useDisk, mem := [], listed := if useDisk then files.filterMap (fun p => stripSql p.1) else [], files, parent, calls }
 
 /-- a process death: where (after how many atomic steps of the miss path) and, if it happens between `write`
-and the end of `close`, how many characters had reached the disk -/
+and the end of `close`, how many characters had reached the temporary file -/
 structure Crash where
   steps : Nat
   flushed : Nat
@@ -138,11 +149,11 @@ structure Crash where
 section
 variable {σ : Type} (prov : Name → Text) (parse : Text → Except Err σ)
 
-/-- `load_from_disk` (`tool.py:63-66`) -/
+/-- `load_from_disk` (`tool.py:64-67`; no newline translation) -/
 def load (s : St σ) (n : Name) : Except Fail Text :=
   match resolve s.files n with
-  | .inDir f => match fget s.files f with | some t => .ok (newlines t) | none => .error .fileNotFound
-  | .parent f => match fget s.parent f with | some t => .ok (newlines t) | none => .error .fileNotFound
+  | .inDir f => match fget s.files f with | some t => .ok t | none => .error .fileNotFound
+  | .parent f => match fget s.parent f with | some t => .ok t | none => .error .fileNotFound
   | .viaMissing => .error .fileNotFound
   | .viaFile => .error .notADirectory
   | .nul => .error .valueError
@@ -151,21 +162,29 @@ def load (s : St σ) (n : Name) : Except Fail Text :=
 /-- where an open file lives -/
 inductive Handle | inDir (f : Name) | parent (f : Name)
 
-/-- `open(path, "w")` (`tool.py:71`): the file exists and is empty from here on -/
-def openW (s : St σ) (n : Name) : Except Fail (Handle × St σ) :=
-  match resolve s.files n with
-  | .inDir f => .ok (.inDir f, { s with files := fset s.files f [] })
-  | .parent f => .ok (.parent f, { s with parent := fset s.parent f [] })
-  | .viaMissing => .error .fileNotFound
-  | .viaFile => .error .notADirectory
-  | .nul => .error .valueError
-  | .outside => .error .outside
+/-- `open(path + ".tmp", "w")` (`tool.py:72`): the temporary file exists and is empty from here on; the handle of the
+temporary file and the place of the final file -/
+def openTmp (s : St σ) (n : Name) : Except Fail (Handle × Handle × St σ) :=
+  match resolveTmp s.files n, resolve s.files n with
+  | .inDir t, .inDir f => .ok (.inDir t, .inDir f, { s with files := fset s.files t [] })
+  | .parent t, .parent f => .ok (.parent t, .parent f, { s with parent := fset s.parent t [] })
+  | .viaMissing, _ => .error .fileNotFound
+  | .viaFile, _ => .error .notADirectory
+  | .nul, _ => .error .valueError
+  | _, _ => .error .outside
 
-/-- the characters that are on disk -/
+/-- the characters of an open file that are on disk -/
 def putFile (s : St σ) (h : Handle) (t : Text) : St σ :=
   match h with
   | .inDir f => { s with files := fset s.files f t }
   | .parent f => { s with parent := fset s.parent f t }
+
+/-- `os.replace(path + ".tmp", path)` (`tool.py:74`): atomically, the final file holds the text and the temporary name is gone -/
+def replaceFile (s : St σ) (tmp fin : Handle) (t : Text) : St σ :=
+  match tmp, fin with
+  | .inDir a, .inDir f => { s with files := fset (fdel s.files a) f t }
+  | .parent a, .parent f => { s with parent := fset (fdel s.parent a) f t }
+  | _, _ => s
 
 /-- `tool.py:60-61`: parse, store, return -/
 def finish (s : St σ) (n : Name) (sql : Text) : Res σ × St σ :=
@@ -176,10 +195,10 @@ def finish (s : St σ) (n : Name) (sql : Text) : Res σ × St σ :=
 def dies (crash : Option Crash) (k : Nat) : Bool :=
   match crash with | some c => c.steps == k | none => false
 
-/-- `get_statement` (`tool.py:47-61`), with an optional process death after `crash.steps` atomic steps of the
-miss path: 1 = provider called, 2 = name added to `_disk_cache`, 3 = file created/truncated, 4 = `write`
-(`crash.flushed` characters on disk), 5 = `close` (everything on disk).  A hit performs no durable step and
-cannot be interrupted observably. -/
+/-- `get_statement` (`tool.py:48-62`) with `save_to_disk` (`tool.py:69-75`) inlined, and an optional process death after
+`crash.steps` atomic steps of the miss path: 1 = provider called, 2 = temporary file created/truncated, 3 = `write`
+(`crash.flushed` characters in the temporary file), 4 = `close` (whole text in the temporary file), 5 = `os.replace`
+(final file in place).  A hit performs no durable step and cannot be interrupted observably. -/
 def get (crash : Option Crash) (s : St σ) (n : Name) : Res σ × St σ :=
   match mget s.mem n with
   | some st => (.ok st, s)
@@ -193,16 +212,17 @@ def get (crash : Option Crash) (s : St σ) (n : Name) : Res σ × St σ :=
         let s1 := { s with calls := s.calls ++ [n] }              -- `get_sql(full_table_name)`
         let sql := prov n
         if dies crash 1 then (.fail .crashed, s1) else
-        let s2 := { s1 with listed := n :: s1.listed }             -- `self._disk_cache.add(full_table_name)`
-        if dies crash 2 then (.fail .crashed, s2) else
-        match openW s2 n with                                       -- `open(…, "w")`
-        | .error e => (.fail e, s2)
-        | .ok (h, s3) =>
-          if dies crash 3 then (.fail .crashed, s3) else
-          if dies crash 4 then (.fail .crashed, putFile s3 h (sql.take (match crash with | some c => c.flushed | none => 0))) else
-          let s4 := putFile s3 h sql                                -- `file.write(sql)`; `close`
+        match openTmp s1 n with                                     -- `open(path + ".tmp", "w")`
+        | .error e => (.fail e, s1)
+        | .ok (tmp, fin, s2) =>
+          if dies crash 2 then (.fail .crashed, s2) else
+          if dies crash 3 then (.fail .crashed, putFile s2 tmp (sql.take (match crash with | some c => c.flushed | none => 0))) else
+          let s3 := putFile s2 tmp sql                              -- `file.write(sql)`; `close`
+          if dies crash 4 then (.fail .crashed, s3) else
+          let s4 := replaceFile s3 tmp fin sql                      -- `os.replace(path + ".tmp", path)`
           if dies crash 5 then (.fail .crashed, s4) else
-          finish parse s4 n sql
+          let s5 := { s4 with listed := n :: s4.listed }            -- `self._disk_cache.add(full_table_name)`
+          finish parse s5 n sql
     else
       let s1 := { s with calls := s.calls ++ [n] }
       if dies crash 1 then (.fail .crashed, s1) else
@@ -261,11 +281,6 @@ def St.abs {σ : Type} (s : St σ) : Abs :=
 /-- no `/` and no NUL: `resolve` leads to the file `name.sql` in the cache directory -/
 def Good (n : Name) : Bool := !n.contains '/' && !n.contains '\x00'
 
-/-- `.sql` does not occur in `n ++ ".sql"` before the final suffix -/
-def Clean : Name → Bool
-  | [] => true
-  | c :: r => !(ext.isPrefixOf (c :: r ++ ext)) && Clean r
-
 /-! ## the lookup keys used by the lineage analyzers -/
 
 /-- `StandardTable.source()` (`analyzer/node.py:23-25`): the key under which source tables are requested -/
@@ -274,9 +289,12 @@ def sourceKey (schema : Option String) (table : String) : String :=
   | some s => if s.isEmpty then table else s ++ "." ++ table
   | none => table
 
-/-- `ASTTableNameExpression.source()` (`core/node.py:385-387`): the key under which the INSERT target is requested
-(`table_lineage_analyzer.py:140-141`) -/
-def insertKey (schema : Option String) (table : String) : String :=
+/-- the key under which the INSERT target is requested (`table_lineage_analyzer.py:142-144`, since /repo be71fec):
+`StandardTable(schema_name=…, table_name=…).source()`, the spelling of source tables -/
+def insertKey (schema : Option String) (table : String) : String := sourceKey schema table
+
+/-- the key used before /repo be71fec: `ASTTableNameExpression.source()`, the printed back-quoted form (F-C17-9) -/
+def insertKeyOld (schema : Option String) (table : String) : String :=
   match schema with
   | some s => "`" ++ s ++ "." ++ table ++ "`"
   | none => "`" ++ table ++ "`"
